@@ -188,6 +188,19 @@ func (c PageCase) offeredFailReason(rows []string, r, i int) string {
 			return "row-fits-only-without-both-entries"
 		}
 	}
+	// the room a middle page has for rows (size minus page without sink, minus both
+	// entries, minus the implementation's own two bytes of slack) is zero or negative:
+	// joinSink's unsigned arithmetic wraps around and puts everything on one page
+	base := len(c.expect(nil, false, false))
+	nav := 0
+	for _, b := range []*MItem{c.Next, c.Prev} {
+		if b != nil {
+			nav += 1 + len(b.Sel+c.sep()+c.label(b.Label))
+		}
+	}
+	if int(c.Size)-base-nav-2 <= 0 {
+		return "row-fits-only-without-both-entries"
+	}
 	if longerLabel {
 		return "browse-label-longer-than-symbol"
 	}
@@ -200,12 +213,47 @@ func checkC02(c PageCase) (o Outcome) {
 		return
 	}
 	if c.hasEmptyRow() && tolerate("F-C02-1") {
-		// rows are dropped (known); what remains checkable: no index panics
+		// rows are dropped (known); what remains checkable without knowing which rows a
+		// page holds: no index panics; a page that shows the 'next' entry is followed by a
+		// page that renders; a page that does not show it is the last (the next index fails)
 		o.Tolerated = append(o.Tolerated, "F-C02-1")
-		o.class("empty-row:no-panic-only")
+		o.class("empty-row:navigation-only")
+		nextLine := ""
+		if c.Next != nil {
+			nextLine = c.Next.Sel + c.sep() + c.label(c.Next.Label)
+		}
+		offers := func(out string) bool {
+			return nextLine != "" && (strings.HasSuffix(out, "\n"+nextLine) || strings.Contains(out, "\n"+nextLine+"\n"))
+		}
+		prevOffered := false
 		for i := 0; i < len(c.rows())+3; i++ {
-			if _, _, p := c.renderAt(uint16(i)); p != nil {
+			out, err, p := c.renderAt(uint16(i))
+			if p != nil {
 				o.Viol = &Violation{Kind: "panic", Msg: fmt.Sprintf("render of page %d panics: %s", i, p.val), Detail: p.stack}
+				return
+			}
+			if err != nil {
+				if prevOffered {
+					det := c.offeredFailReason(c.rows(), 0, i)
+					if det == "row-fits-only-without-both-entries" && tolerate("F-C02-2") {
+						o.Tolerated = append(o.Tolerated, "F-C02-2")
+						return
+					}
+					o.Viol = viol("offered-page-fails", "page %d was offered by 'next' on page %d but fails to render: %v", i, i-1, err)
+					o.Viol.Detail = det
+				}
+				return
+			}
+			if uint32(len(out)) > c.Size {
+				o.Viol = viol("oversize-page", "page %d has %d bytes, output size is %d", i, len(out), c.Size)
+				return
+			}
+			if i > 0 && !prevOffered {
+				o.Viol = viol("past-end-rendered", "page %d did not offer 'next' but index %d renders %q", i-1, i, out)
+				return
+			}
+			prevOffered = offers(out)
+			if nextLine == "" {
 				return
 			}
 		}
@@ -436,7 +484,7 @@ var _ = registerReplay("C01", "page", checkC01Page)
 func TestC02(t *testing.T) {
 	runKnownExamples(t, "C02")
 	RunProp(t, "C02", "page", pick(5000, 80000), func(t *rapid.T) PageCase {
-		return genPageCase(t, pageGenOpts{sink: true, emptyRows: chancePct(t, 10, "emptyrows")})
+		return genPageCase(t, pageGenOpts{sink: true, emptyRows: chancePct(t, 20, "emptyrows")})
 	}, checkC02)
 	if t.Failed() {
 		return
